@@ -180,6 +180,12 @@ void ParMatrix::mult_T(ParVector& x, ParVector& b, bool tap)
     {
         on_proc->mult_T(x.local, b.local);
     }
+    else
+    {
+        // A rank can own columns without owning rows: its part of b still
+        // has to start from zero before the off-process contributions arrive
+        b.local.set_const_value(0.0);
+    }
 
     comm->complete_comm_T<double>(b.local.values, off_proc->b_cols);
 }
@@ -203,6 +209,12 @@ void ParMatrix::tap_mult_T(ParVector& x, ParVector& b)
     if (local_num_rows)
     {
         on_proc->mult_T(x.local, b.local);
+    }
+    else
+    {
+        // A rank can own columns without owning rows: its part of b still
+        // has to start from zero before the off-process contributions arrive
+        b.local.set_const_value(0.0);
     }
 
     tap_comm->complete_comm_T<double>(b.local.values, off_proc->b_cols);
